@@ -704,6 +704,14 @@ def run_c15(ctx):
                    "factor-triangular", detail="; ".join(det) or "no writes to the factor were found")
         guarded_clause(ctx, "C15-c", fn, "triangular", c)
     # d. Index / IndexMut offsets
+    index_offset_clause(ctx, "C15-d")
+
+    zero_constructor_clause(ctx, "C15-d")
+
+
+def index_offset_clause(ctx, RID):
+    f = ctx.facts
+
     def d():
         offs = {}
         for tr, nm in (("index::Index", "index"), ("index::IndexMut", "index_mut")):
@@ -722,13 +730,11 @@ def run_c15(ctx):
                 e = scalar_of(res, "element")
                 offs[nm] = e.terms[0].atoms[0][0][2] if e.terms and e.terms[0].atoms else None
         want = "⟨%s⟩" % (Expr.leaf("$ix", "r") * Expr.symbol("dim") + Expr.leaf("$ix", "c")).key()
-        ctx.ob("C15-d", "Index offset is r·dim + c", offs.get("index") == want, "matrix::SquareMatrix::index", "index-offset",
+        ctx.ob(RID, "Index offset is r·dim + c", offs.get("index") == want, "matrix::SquareMatrix::index", "index-offset",
                detail="offset %s, expected %s" % (offs.get("index"), want))
-        ctx.ob("C15-d", "IndexMut offset is r·dim + c (sibling agreement)", offs.get("index_mut") == want, "matrix::SquareMatrix::index_mut", "index-mut-offset",
+        ctx.ob(RID, "IndexMut offset is r·dim + c (sibling agreement)", offs.get("index_mut") == want, "matrix::SquareMatrix::index_mut", "index-mut-offset",
                detail="offset %s, expected %s" % (offs.get("index_mut"), want))
-    guarded_clause(ctx, "C15-d", "matrix::SquareMatrix", "index-offset", d)
-
-    zero_constructor_clause(ctx, "C15-d")
+    guarded_clause(ctx, RID, "matrix::SquareMatrix", "index-offset", d)
 
 
 def zero_constructor_clause(ctx, RID):
@@ -775,6 +781,8 @@ def top_local(I, name):
 
 def cholesky_clause(ctx, RID):
     zero_constructor_clause(ctx, RID)
+    if RID != "C15-e":          # C15 decides it under C15-d
+        index_offset_clause(ctx, RID)
     w = matrix_world(ctx)
     if not w.ok:
         return ctx.ob(RID, "decompose_for_tropical summarised", False, "matrix::SquareMatrix::decompose_for_tropical", "kernel-undecided", detail=w.error)
